@@ -336,7 +336,7 @@ def _derive(w, op, prop):
         for nm in names:
             if isinstance(nm, tuple):
                 tx = expr_text(nm)
-                if not _numeric_expr(w, tid, nm):
+                if not _numeric_expr(w, tid, nm) or tx in m.cols or tx in m.scalars:
                     return "skipped"
                 try:
                     values[tx] = [eval_expr(nm, {c: m.data[c][i] for c in m.cols}) for i in range(m.n())]
@@ -408,8 +408,8 @@ def _derive(w, op, prop):
         _, tid, ast, via = op
         t, m = w.real[tid], w.model[tid]
         tx = expr_text(ast)
-        if not _numeric_expr(w, tid, ast):
-            return "skipped"
+        if not _numeric_expr(w, tid, ast) or tx in m.cols or tx in m.scalars:
+            return "skipped"            # a column that is NAMED like the expression is returned as it is (by design)
         try:
             exp = [eval_expr(ast, {c: m.data[c][i] for c in m.cols}) for i in range(m.n())]
         except (ZeroDivisionError, KeyError, TypeError, OverflowError):
